@@ -480,6 +480,9 @@ def _r2(ctx, pkg):
     # what the two properties compute may sit in helper methods they call
     bsrc = "\n".join(ast.unparse(f) for f in method_closure(pkg, "Species", bfn))
     asrc = "\n".join(ast.unparse(f) for f in method_closure(pkg, "Species", afn))
+    # the markers are looked for in the text of the getter and of the methods it calls: when the species is handed whole to other code
+    # (a module-level function, getattr / vars), what is read there is not in that text
+    escapes = re.search(r"[(,=]\s*self\s*[,)]|getattr\(\s*self\b|vars\(\s*self\b|self\.__dict__", re.sub(r"(?m)^\s*def .*$", "", asrc))
     disj, _ = eq_disjuncts(eqf, resolve=lambda name: pkg.resolve("Species", name)[1])
     ice = [d for d in disj if ("both", "is_surface") in d]
     compared = {l[1] for d in ice for l in d if l[0] == "eq"}
@@ -488,12 +491,18 @@ def _r2(ctx, pkg):
         if not stripped.get(attr) or attr not in compared:
             continue
         enc = marker in asrc
+        if not enc and escapes:
+            ctx.unrec("R2", f"alias re-encodes {attr}", (SP, afn.lineno), f"Species.alias hands the species itself to code outside the class ({escapes.group(0).strip()}): whether `{attr}` is encoded there is not read")
+            continue
         ctx.check(enc, "R2", f"alias re-encodes {attr}", (SP, afn.lineno),
                   f"`{attr}` is stripped by basename, compared by __eq__ and re-encoded by alias" if enc else
                   f"`{attr}` is stripped from the name by basename and compared by Species.__eq__/__hash__, but alias does not re-encode it: "
                   "#1H and #2H are different species with the one identifier GHI",
                   expected=f"alias depends on {attr}", found="alias = 'G' + basename + charge suffix")
-    ctx.check("is_surface" in asrc, "R2", "alias re-encodes the ice phase", (SP, afn.lineno), "the surface prefix stripped by basename comes back as 'G'")
+    if "is_surface" not in asrc and escapes:
+        ctx.unrec("R2", "alias re-encodes the ice phase", (SP, afn.lineno), "Species.alias hands the species itself to code outside the class: whether the phase is encoded there is not read")
+    else:
+        ctx.check("is_surface" in asrc, "R2", "alias re-encodes the ice phase", (SP, afn.lineno), "the surface prefix stripped by basename comes back as 'G'")
 
 
 # ------------------------------------------------------------------ R3
@@ -1015,6 +1024,11 @@ def _r4_uses(ctx):
                 if src is None or var is None or (is_elem and e != _first_key(var) and not (J.names_of(e) <= {var[1]})):
                     ctx.unrec("R4", key, (rel, it[2]), f"IDX_{'ELEM_' if is_elem else ''}{{{{ {J.show(e)} }}}}: the item the suffix is taken from is not a variable of an enclosing loop over a known sequence")
                     continue
+                sv = _seq_verdict(src, None, want_seq)
+                rooted = src[0] == "attr" and src[1][0] == "name"          # a sequence of a template object: network.x, species.x
+                if sv != "ok" and not (rooted or sv == "wrong"):
+                    ctx.unrec("R4", key, (rel, it[2]), f"IDX_{'ELEM_' if is_elem else ''}{{{{ {J.show(e)} }}}}: the loop takes its items from {J.show(src)}, a sequence this rule does not know")
+                    continue
                 if is_elem:
                     ok = src == want_seq and e == _first_key(var)
                     ctx.check(ok, "R4", key, (rel, it[2]), "the element macro used is the one the header defines for an element of network.elements",
@@ -1054,15 +1068,24 @@ def _r4_uses(ctx):
                             and re.search(r"IDX_(ELEM_)?$", str(x[3][1][1])):
                         is_elem = "IDX_ELEM_" in x[3][1][1]
                         inner = x[2]
+                        while inner[0] == "filter" and inner[1] == "list" and not inner[3] and not inner[4]:
+                            inner = inner[2]                    # `| list` in the middle of the chain changes nothing
+                        key = f"{rel.split('/')[-1]}:line {line}:map prefix {x[3][1][1]}"
+                        n2 += 1
                         if is_elem:
                             want = ("filter", "map", ("filter", "map", NELEM, (), (("attribute", ("const", "element_count")),)), (("const", "first"),), ())
                             ok = inner == want
+                            understood = ok or (inner[0] == "filter" and inner[1] == "map" and J.unfilter(inner)[0][0] == "attr" and J.unfilter(inner)[0][1] == ("name", "network"))
                         else:
                             ok_inner = inner[0] == "filter" and inner[1] == "map" and inner[4] == (("attribute", ("const", "alias")),)
                             base = J.unfilter(inner[2])[0] if ok_inner else None
                             ok = ok_inner and base == NSPEC
-                        key = f"{rel.split('/')[-1]}:line {line}:map prefix {x[3][1][1]}"
-                        n2 += 1
+                            # understood and wrong: another attribute mapped, or the names of another sequence of the network
+                            understood = ok or (inner[0] == "filter" and inner[1] == "map" and not inner[3] and len(inner[4]) == 1 and inner[4][0][0] == "attribute"
+                                                and J.unfilter(inner[2])[0][0] == "attr" and J.unfilter(inner[2])[0][1] == ("name", "network"))
+                        if not understood:
+                            ctx.unrec("R4", key, (rel, line), f"the names the macro prefix is mapped over are not understood: {J.show(inner)[:120]}")
+                            continue
                         ctx.check(ok, "R4", key, (rel, line),
                                   "the mapped macro names come from (a selection of) the sequence the header enumerates, with the same suffix", found=J.show(inner)[:120])
     ctx.floor("R4", "mapped IDX_ names", n2, 6)
@@ -1327,7 +1350,11 @@ def hash_contract(ctx, pkg, rule="R7"):
                 # reads only names bound in the class body, but they are re-bound somewhere: whether they differ between instances is not decided
                 ctx.unrec(rule, f"hash vs eq[{label}]", (SP, hf.lineno), f"the hash of an electron reads class-level names that are not provably constant: {sorted(el[0][1])}")
                 continue
-            ctx.check(len(el) == 1 and not el[0][1], rule, f"hash vs eq[{label}]", (SP, hf.lineno), "equal electrons hash to the same constant")
+            if len(el) != 1:
+                # no / several return paths under `self.is_electron`: how electrons are hashed is not read (never a verdict)
+                ctx.unrec(rule, f"hash vs eq[{label}]", (SP, hf.lineno), f"expected one return path of __hash__ under `self.is_electron`, found {len(el)}")
+                continue
+            ctx.check(not el[0][1], rule, f"hash vs eq[{label}]", (SP, hf.lineno), "equal electrons hash to the same constant", found=f"the electron's hash reads {sorted(el[0][1])}")
             continue
         forced = {l[1] for l in d if l[0] == "eq"} | {l[1] for l in d if l[0] == "both"}
         if "name" in forced:
@@ -1481,6 +1508,19 @@ def _r11(ctx, pkg):
                 mr = as_map(rhs)
                 ok = lhs == body and base == ("attr", ("param", "network"), "species") and bool(mr) and mr[1] == ("call", ("global", "Species"), (mr[0],), ()) \
                     and mr[2] in (("attr", ("global", "EnzoPatch"), table), ("attr", SELF, table), ("attr", ("param", "cls"), table)) and not mr[3]
+        # understood and wrong: a selection from network.species by a test that compares spellings (an attribute of the species, or the
+        # species against raw names), or the opposite membership test.  Anything else is not understood.
+        wrong = False
+        if m and not ok and len(m[3]) == 1 and m[3][0][0] == "cmp" and len(m[3][0][1]) == 1 and m[3][0][1][0] in ("In", "NotIn") and m[2] == ("attr", ("param", "network"), "species"):
+            lhs, rhs = m[3][0][2]
+            tab_ir = (("attr", ("global", "EnzoPatch"), table), ("attr", SELF, table), ("attr", ("param", "cls"), table))
+            by_text = (lhs[0] == "attr" and lhs[1] == m[1]) or rhs in tab_ir or (rhs[0] == "call" and rhs[1] in (("global", "set"), ("global", "list"), ("global", "tuple")) and rhs[2] and rhs[2][0] in tab_ir)
+            mr2 = as_map(rhs)
+            by_species = bool(mr2) and mr2[1] == ("call", ("global", "Species"), (mr2[0],), ()) and lhs == m[1]
+            wrong = by_text or (by_species and m[3][0][1] != (op,)) or (by_species and mr2[2] not in tab_ir and mr2[2][0] == "attr" and mr2[2][2].endswith("species_name"))
+        if not ok and not wrong:
+            ctx.unrec("R11", f"EnzoPatch.render:species_{nm}", (PATCH, fn.lineno), f"how the group is selected is not understood: {found}")
+            continue
         ctx.check(ok, "R11", f"EnzoPatch.render:species_{nm}", (PATCH, fn.lineno),
                   f"network species {'in' if op == 'In' else 'not in'} the predefined list, by Species equality" if ok else
                   "the group is not `species (not) in [Species(n) for n in <predefined names>]`: compared by spelling, an electron written E- / E (or any species equal but spelled "
@@ -1701,6 +1741,8 @@ def _setness(v):
         return "set" if a == "set" or b == "set" else a if a == b else None
     if k == "meth" and v[2] in ("union", "intersection", "difference", "symmetric_difference") and not v[4]:
         return _setness(v[1])
+    if k == "comp" and v[1] in ("list", "gen") and len(v[3]) == 1 and v[3][0][0] is not None:
+        return "list" if _setness(_unwrap_seq(v[3][0][1])) == "list" else None         # over something unknown: unknown
     if k in ("list", "tuple") or (k == "comp" and v[1] in ("list", "gen")) or (k == "binop" and v[1] == "Add"):
         return "list"
     if k == "attr" and v[1] == SELF and v[2] == "_required_species":
